@@ -11,7 +11,11 @@ Generator: mode (regular, transparent, socks5, upstream:http, upstream:https, re
 upstream_auth (unset, plain, with extra colons, non-ASCII, empty password) x a sequence of client actions:
 absolute-form http:// and https:// requests, CONNECT to port 80/443 followed by plain or TLS (real ssl client)
 inner requests, origin-form requests for reverse/transparent/socks5 (plain or TLS client), each request optionally
-carrying the client's own Authorization / Proxy-Authorization headers.
+carrying the client's own Authorization / Proxy-Authorization headers; the `mode` option lists the client's mode alone
+or together with a second mode in either order.  One case in five is a client replay: a flow recorded live in some mode
+is prepared exactly like ClientPlayback.start_replay does (is_replay="request") and handed to the real
+clientplayback.ReplayHandler, which picks context / via / HTTP mode from the `mode` option list (1-2 modes); the
+handler's layer is then driven by lib/driver.py, 1-2 times.
 
 Oracle: with X = "Basic " + base64(upstream_auth): every request sent directly to the upstream proxy (CONNECT or
 absolute-form) carries exactly one `Proxy-Authorization: X`; every request to the reverse target carries exactly one
@@ -61,8 +65,18 @@ class _R:
         return seq[self.byte() % len(seq)]
 
 
+def _spec(mode):
+    if mode.startswith("upstream:"):
+        return "%s://%s:%d" % (mode, UP[0], UP[1])
+    if mode.startswith("reverse:"):
+        return "%s://%s:%d" % (mode, ORIGIN, 443 if mode.endswith("https") else 80)
+    return mode
+
+
 def _decode(b: bytes):
     r = _R(b)
+    if r.byte() % 5 == 0:
+        return _decode_replay(r)
     mode = r.pick(MODES)
     auth = r.pick(AUTHS)
 
@@ -92,8 +106,35 @@ def _decode(b: bytes):
             reqs.append(req(n))
             n += 1
         actions.append({"kind": "direct", "tls": tls, "reqs": reqs})
-    return {"mode": mode, "auth": auth, "actions": actions, "eager": bool(r.byte() & 1),
+    case = {"mode": mode, "auth": auth, "actions": actions, "eager": bool(r.byte() & 1),
             "send_host": r.byte() % 4 != 0}
+    # multi-mode configurations: the `mode` option lists the client's mode and possibly another one, in either order
+    mk = r.byte()
+    other = r.pick(["regular", "upstream:http", "socks5", "transparent", "reverse:http"])
+    case["modes_opt"] = [mode] if mk % 3 == 0 or other == mode else ([mode, other] if mk & 1 else [other, mode])
+    return case
+
+
+REPLAY_REC = ["regular", "upstream:http", "upstream:http", "upstream:https", "transparent", "socks5", "reverse:http"]
+REPLAY_OPT = ["regular", "upstream:http", "upstream:https", "socks5", "transparent"]
+
+
+def _decode_replay(r):
+    """a recorded flow is client-replayed (ClientPlayback.start_replay + ReplayHandler) under a `mode` option list"""
+    rec = r.pick(REPLAY_REC)
+    n = 1 + r.byte() % 2
+    modes = []
+    for _ in range(n):
+        m = r.pick(REPLAY_OPT + [rec])
+        if m not in modes:
+            modes.append(m)
+    if rec.startswith("reverse"):
+        # a flow recorded in reverse mode keeps `Authorization` for its target; only replay it directly
+        modes = [m for m in modes if not m.startswith("upstream")] or ["regular"]
+    scheme = r.pick(["http", "http", "https"]) if rec in ("regular", "upstream:http", "upstream:https") else "http"
+    return {"mode": "replay", "rec": rec, "modes_opt": modes, "scheme": scheme, "auth": r.pick(AUTHS[1:] + [None]),
+            "req": {"i": 0, "method": r.pick(["GET", "POST"]), "own_a": r.byte() % 5 == 0, "own_pa": r.byte() % 7 == 0},
+            "times": 1 + r.byte() % 2, "eager": bool(r.byte() & 1)}
 
 
 def strategy(ctx):
@@ -122,14 +163,12 @@ def check_case(case, ctx):
     TestPki.get()
     mode = case["mode"]
     auth = case["auth"]
-    if mode.startswith("upstream:"):
-        spec = "%s://%s:%d" % (mode, UP[0], UP[1])
-    elif mode.startswith("reverse:"):
-        spec = "%s://%s:%d" % (mode, ORIGIN, 443 if mode.endswith("https") else 80)
-    else:
-        spec = mode
+    if mode == "replay":
+        return check_replay(case, ctx, env)
+    spec = _spec(mode)
     env.configure(upstream_auth=auth, ssl_insecure=True, connection_strategy="eager" if case["eager"] else "lazy",
-                  http_connect_send_host_header=case["send_host"])
+                  http_connect_send_host_header=case["send_host"],
+                  mode=[_spec(m) for m in case.get("modes_opt", [mode])])
     mctx = make_context(env, spec)
     d = AddonDriver(env, mctx)
     log, plain, eps = [], {}, []
@@ -288,6 +327,118 @@ def check_case(case, ctx):
                                        "|in-tunnel" if in_tunnel_seen else "", "|tls" if tls_seen else ""))
     else:
         ctx.cls("plain:%s|auth=%s" % (mode, "set" if auth else "unset"))
+
+
+def _teardown(d, client, f):
+    """what proxy/server.py does when a connection handler ends: every transport is closed and the layers are told"""
+    from mitmproxy.connection import ConnectionState
+    if d.crashed is None:
+        for sv in list(d.servers):
+            d.close(sv, full=True)
+        d.close(client, full=True)
+    for sv in list(d.servers) + [f.server_conn]:
+        if sv.state is not ConnectionState.CLOSED:
+            sv.state = ConnectionState.CLOSED
+    f.live = False
+
+
+def check_replay(case, ctx, env):
+    """record one flow live, prepare it exactly like ClientPlayback.start_replay, let ReplayHandler choose context,
+    via and HTTP mode from the `mode` option list, and drive the handler's layer; every emitted request is observed"""
+    from mitmproxy.addons.clientplayback import ReplayHandler
+    from mitmproxy.connection import ConnectionState
+    auth, rec = case["auth"], case["rec"]
+    env.configure(upstream_auth=auth, ssl_insecure=True, connection_strategy="eager" if case["eager"] else "lazy",
+                  mode=[_spec(m) for m in case["modes_opt"]])
+    mctx = make_context(env, _spec(rec))
+    flows = []
+    d = AddonDriver(env, mctx, after=lambda c: flows.append(c.flow) if c.name == "response" else None)
+    log, plain, eps = [], {}, []
+
+    def opener(dd):
+        def on_open(conn):
+            ep = HttpEndpoint(lambda b, c=conn: dd.recv(c, b), "%s:%d" % (conn.address[0], conn.address[1]), log, plain)
+            eps.append(ep)
+            dd.on_send[conn] = ep.feed
+        return on_open
+    d.on_open = opener(d)
+    client = mctx.client
+    if rec == "transparent":
+        mctx.server.address = (ORIGIN, 80)
+    d.start()
+    if rec == "socks5":
+        d.recv(client, b"\x05\x01\x00" + b"\x05\x01\x00\x03" + bytes([len(ORIGIN)]) + ORIGIN.encode() + b"\x00\x50")
+    proxy_style = rec == "regular" or rec.startswith("upstream")
+    d.recv(client, _abs_form(case["req"], case["scheme"]) if proxy_style else _origin_form(case["req"]))
+    if d.crashed is not None:
+        ctx.crash(d.crashed, "layer-crash")
+        return
+    if not flows:
+        ctx.cls("replay:recording-produced-no-flow")
+        return
+    f = flows[0]
+    # the recorded exchange is over: connections are closed, the flow is no longer live
+    _teardown(d, client, f)
+    live_log = list(log)
+    del log[:]
+    plain.clear()
+    crashed = None
+    for _ in range(case["times"]):
+        # == ClientPlayback.start_replay
+        f.backup()
+        f.is_replay = "request"
+        f.response = None
+        f.error = None
+        h = ReplayHandler(f, env.opts)
+        d2 = AddonDriver(env, h.layer.context, top=h.layer)
+        d2.on_open = opener(d2)
+        d2.start()
+        crashed = crashed or d2.crashed
+        _teardown(d2, h.layer.context.client, f)
+    if crashed is not None:
+        # "Client replay has crashed!" (e.g. a flow that was not recorded in upstream mode replayed while the first
+        # mode is an upstream mode trips an assert in HttpLayer): a robustness matter, not a credential one.
+        # Counted; whatever was emitted before is still judged below.
+        ctx.cls("replay-crashed:%s" % type(crashed).__name__)
+    for name, e in env.addon_errors:
+        ctx.crash(e, "addon-error:" + name)
+    recclass = "replay-of-%s-flow" % rec.split(":")[0]
+    first_up = case["modes_opt"][0].startswith("upstream")
+    if auth is None:
+        for label, depth, m in log:
+            vals = m.get_all("proxy-authorization") + m.get_all("authorization")
+            if any(v not in (CLIENT_A.split(b": ")[1], CLIENT_PA.split(b": ")[1]) for v in vals):
+                ctx.fail("credential-added-without-upstream-auth:%s" % recclass, "%s %r %r" % (label, m.start, m.headers))
+        ctx.cls("plain:replay|auth=unset")
+        return
+    token = base64.b64encode(auth.encode("utf-8"))
+    X = b"Basic " + token
+    up_label = "%s:%d" % UP
+    for label, depth, m in log:
+        pa, au = m.get_all("proxy-authorization"), m.get_all("authorization")
+        info = "%s %r headers=%r auth=%r recorded=%s mode option=%r" % (label, m.start, m.headers, auth, rec, case["modes_opt"])
+        form = "CONNECT" if m.method == b"CONNECT" else ("abs" if b"://" in m.target else "origin-form")
+        if label in (up_label, up_label + "+tls"):
+            continue  # written to the upstream proxy itself: the one place the credential may go
+        if ">tunnel" in label:
+            place = "in-tunnel-tls" if label.endswith(">tunnel+tls") else "in-tunnel-plain"
+        elif rec.startswith("reverse"):
+            if X in pa:
+                ctx.fail("credential-misplaced:%s,to-target,%s" % (recclass, form), info)
+            continue  # the reverse target is entitled to `Authorization`
+        else:
+            place = "to-origin"
+        if X in pa or X in au or token in m.raw_head:
+            ctx.fail("credential-leaked:%s,%s,%s" % (recclass, place, form), info)
+    for label, data in plain.items():
+        if (">tunnel" in label or not label.startswith(up_label)) and not rec.startswith("reverse") and token in data:
+            ctx.fail("credential-leaked-bytes:%s,%s" % (recclass, (
+                "in-tunnel-tls" if label.endswith(">tunnel+tls") else "in-tunnel-plain") if ">tunnel" in label else "to-origin"),
+                     "%s: %r" % (label, data[:300]))
+    if not log:
+        ctx.cls("replay:nothing-emitted")
+        return
+    ctx.nt(repr(case), "replay|rec=%s|opt=%s|%s" % (rec, "+".join(m.split(":")[0] for m in case["modes_opt"]), case["scheme"]))
 
 
 def run(ctx):
